@@ -93,6 +93,22 @@ def gen_vm_program(rnd, size):
     root = []
     for i in range(rnd.randint(0, 3)):
         name = 'fn%d' % i
+        if rnd.random() < 0.35:
+            # a one-statement function (only a return): predicate / comparator / one-line recursion
+            kind = rnd.choice(['pred', 'cmp', 'rec'])
+            if kind == 'pred':
+                e = {'binary': {'op': '>', 'left': V('a1'), 'right': {'number': float(rnd.randint(0, 4))}}}
+            elif kind == 'cmp':
+                e = {'binary': {'op': '-', 'left': V('a1'), 'right': V('a2')}}
+            else:
+                e = call_expr('if', {'binary': {'op': '>', 'left': V('a1'), 'right': {'number': 0.0}}},
+                              {'binary': {'op': '+', 'left': call_expr(name, {'binary': {'op': '-', 'left': V('a1'), 'right': {'number': 1.0}}}),
+                                          'right': {'number': 1.0}}}, {'number': 0.0})
+                classes.add('recursion')
+            classes.add('one-statement-function')
+            root.append({'function': {'name': name, 'args': ['a1', 'a2'], 'statements': [{'return': {'expr': e}}]}})
+            funcs.append(name)
+            continue
         body = block(rnd.randint(1, 4), 1, True, name)
         if rnd.random() < 0.3:
             # bounded (or, rarely, unbounded) recursion on the argument
@@ -192,10 +208,12 @@ INC_FILES = {
     'inc3.bare': "function fromInc(aa):\n    systemLog('fromInc ' + aa)\n    return aa\nendfunction\nfromInc(1)\nfromInc(2)\nsystemLog('i3')\nreturn\nsystemLog('never')\n",
 }
 CALLBACK_PRELUDE = ["function chk(aa):", "    systemLog('chk a')", "    systemLog('chk b')", "    return aa > 1", "endfunction",
+                    "function one(aa):", "    return aa > 1", "endfunction", "function deep(nn):", "    return if(nn > 0, deep(nn - 1) + 1, 0)", "endfunction",
                     "dd = arrayNew(objectNew('a', 1), objectNew('a', 2), objectNew('a', 3), objectNew('a', 4), objectNew('a', 0))"]
 CALLBACK_CALLS = ["dataFilter(dd, 'chk(a)', objectNew('q', 1))", "dataFilter(dd, 'chk(a)')", "dataCalculatedField(dd, 'b', 'chk(a)', objectNew('q', 1))",
                   "dataCalculatedField(dd, 'b', 'chk(a)')", "arrayIndexOf(arrayNew(1, 2, 3), chk)", "dataJoin(dd, dd, 'chk(a)', null, false, objectNew('q', 1))",
-                  "dataJoin(dd, dd, 'chk(a)')", "arraySort(arrayNew(3, 1, 2), chk)"]
+                  "dataJoin(dd, dd, 'chk(a)')", "arraySort(arrayNew(3, 1, 2), chk)", "systemLog(arrayIndexOf(arrayNew(0, 1, 2, 3), one))",
+                  "systemLog(deep(6))", "dataFilter(dd, 'one(a)', objectNew('q', 1))", "systemLog(deep(3) + deep(2))"]
 
 
 def gen_structured(rnd, size):
